@@ -1024,6 +1024,9 @@ class sptensor:
             if not self.shape == other.shape:
                 assert False, "Must be tensors of the same shape"
 
+            if self.nnz == 0 or other.nnz == 0:
+                return sptensor(shape=self.shape)
+
             C = sptensor.from_aggregator(
                 np.vstack((self.subs, other.subs)),
                 np.vstack((self.vals, other.vals)),
@@ -1035,9 +1038,10 @@ class sptensor:
             return C
 
         if isinstance(other, ttb.tensor):
-            BB = sptensor(self.subs, other[self.subs][:, None], self.shape)
-            C = self.logical_and(BB)
-            return C
+            if not self.shape == other.shape:
+                assert False, "Must be tensors of the same shape"
+            # Only the nonzeros of the dense tensor can make the result true
+            return self.logical_and(other.to_sptensor())
 
         # Otherwise
         assert False, "The arguments must be two sptensors or an sptensor and a scalar."
